@@ -226,6 +226,43 @@ class Freshness:
                                 guarded = True
                     if not guarded:
                         identity_unguarded = True
+                    continue
+                if isinstance(v, ast.Name):
+                    # single-exit spelling: `r = p; if isinstance(p, ndarray): r = p.copy(); return r`
+                    defs = flow.reaching(n, v.id)
+                    if not defs:
+                        identity_unguarded = True
+                        continue
+                    redef_ids = [d.node.id for d in defs if d.node is not None]
+                    for d in defs:
+                        dv = d.value
+                        if d.kind != "assign" or dv is None or d.path:
+                            identity_unguarded = True
+                            continue
+                        if isinstance(dv, ast.Call) and isinstance(dv.func, ast.Attribute) and dv.func.attr == "copy" and isinstance(dv.func.value, ast.Name) and dv.func.value.id == p:
+                            copies = True
+                            continue
+                        if isinstance(dv, ast.Call) and self.ctx.res.external_name(fi, dv) in ("numpy.array", "numpy.copy", "copy.deepcopy") and dv.args and isinstance(dv.args[0], ast.Name) and dv.args[0].id == p:
+                            copies = True
+                            continue
+                        if isinstance(dv, ast.Constant):
+                            continue
+                        if isinstance(dv, ast.Name) and dv.id == p:
+                            # the identity definition may reach the return only along the False edge of an isinstance(p, ndarray) test
+                            tests = [t for t in cfg.stmt_nodes() if t.kind == "test" and isinstance(t.ast, ast.Call) and dotted(t.ast.func) == "isinstance" and len(t.ast.args) == 2
+                                     and isinstance(t.ast.args[0], ast.Name) and t.ast.args[0].id == p and "ndarray" in ast.unparse(t.ast.args[1])]
+                            ok_guard = False
+                            for t in tests:
+                                others = [i for i in redef_ids if i != d.node.id]
+                                through_test = not cfg.reaches(d.node.id, n.id, blocked=[t.id])
+                                true_succ = [x for (x, lab) in cfg.succ[t.id] if lab and lab[0] == "cond" and lab[2] is True]
+                                leaks = any(x == n.id or (x not in others and cfg.reaches(x, n.id, blocked=others)) for x in true_succ)
+                                if through_test and not leaks:
+                                    ok_guard = True
+                            if not ok_guard:
+                                identity_unguarded = True
+                            continue
+                        identity_unguarded = True
         if copies and not identity_unguarded:
             return "copies-arrays"
         return "identity"
@@ -565,5 +602,11 @@ class Freshness:
                 continue
             if isinstance(v, ast.Call) and any(isinstance(a, ast.Name) and a.id == p for a in ast.walk(v)):
                 continue
+            if isinstance(v, ast.Name):
+                # single-exit spelling: a local whose every definition is the parameter, None or a call on the parameter
+                defs = [x for x in ast.walk(t.node) if isinstance(x, ast.Assign) and len(x.targets) == 1 and isinstance(x.targets[0], ast.Name) and x.targets[0].id == v.id]
+                if defs and all((isinstance(d.value, ast.Name) and d.value.id == p) or (isinstance(d.value, ast.Constant) and d.value.value is None)
+                                or (isinstance(d.value, ast.Call) and any(isinstance(a, ast.Name) and a.id == p for a in ast.walk(d.value))) for d in defs):
+                    continue
             return False
         return True
